@@ -13,8 +13,10 @@ Three workloads, chosen per run by the seed (run['kind']):
                 arrays and argument lists passed to the driver are left
                 untouched" are reported here (mutation:*, args_mutated:*,
                 input_column_not_preserved).
-  io    (15 %)  the C13 save_data/read_data workload; only args_mutated:*
+  io    (12 %)  the C13 save_data/read_data workload; only args_mutated:*
                 is reported here.
+  et    ( 8 %)  the C11 read_data-on-ET-output workload (incl. checkpoint
+                reads); only args_mutated:* is reported here.
 
 DESIGN 4 / C02.
 """
@@ -40,7 +42,7 @@ RULE = ("70% of runs: generator of C01 (non-flat, mostly non-vacuum "
         "save with explicit vars. Distinct = the workload's own measure.")
 PROBES = ['eviction', 'cache_hit_request', 'arrays_monitored',
           'helper_args_monitored', 'touch_all', 'kind_core', 'kind_time',
-          'kind_io']
+          'kind_io', 'kind_et']
 COMPONENTS = dict(cc.COMPONENTS)
 COMPONENTS['aurel.time.over_time, aurel.reading.save_data/read_data'] = \
     'real (C14 / C13 workloads, mutation oracles only)'
@@ -60,14 +62,17 @@ warmup = cc.warmup
 
 
 def generate(rng, tier):
-    kind = rng.child('c02kind').weighted([('core', 70), ('time', 15),
-                                          ('io', 15)])
+    kind = rng.child('c02kind').weighted([('core', 65), ('time', 15),
+                                          ('io', 12), ('et', 8)])
     if kind == 'time':
         from . import C14
         run = C14.generate(rng, tier)
     elif kind == 'io':
         from . import C13
         run = C13.generate(rng, tier)
+    elif kind == 'et':
+        from . import C11
+        run = C11.generate(rng, tier)
     else:
         run = cc.generate(rng, tier, 'C02')
     run['kind'] = kind
@@ -81,6 +86,9 @@ def fixup(run):
     elif run.get('kind') == 'io':
         from . import C13
         r = C13.fixup(run)
+    elif run.get('kind') == 'et':
+        from . import C11
+        r = C11.fixup(run)
     else:
         r = cc.fixup(run)
     if r is not None:
@@ -96,6 +104,9 @@ def simplify(run):
     elif kind == 'io':
         from . import C13
         gen = C13.simplify(run)
+    elif kind == 'et':
+        from . import C11
+        gen = C11.simplify(run)
     else:
         gen = cc.simplify(run)
     for c in gen:
@@ -118,6 +129,14 @@ def execute(run):
                              if v['sig'].startswith(_KEEP_IO)]
         res['nontrivial'] = any(o['op'] == 'save' and o['vars']
                                 for o in run['ops'])
+    elif kind == 'et':
+        # read_data on Einstein Toolkit output (incl. usecheckpoints=True):
+        # only the "argument lists are left untouched" clause is reported
+        from . import C11
+        res = C11.execute(run)
+        res['violations'] = [v for v in res['violations']
+                             if v['sig'].startswith(_KEEP_IO)]
+        res['nontrivial'] = any(o['op'] == 'read' for o in run['ops'])
     else:
         from .. import coresim
         eng = coresim.Engine(run, 'C02', {'C02'})
